@@ -156,6 +156,31 @@ claim('C18',
                     '30/360 with days 29-31. Known finding F-C18-01 (time-of-day fraction, pinned by a test).',
       '§7 C18')
 
+claim('C04',
+      'TLA+ spec XlWorkbook (API-level state machine: inputs, stored values, evaluated set, mechanism switch); TLC checks NoStale / '
+      'StoredInputs / GetIsStored / Deterministic / EvaluateFrame on all reachable states and shows the need_update and global-memo '
+      'design variants violate NoStale; every history of length 4 (thorough 5) is replayed step by step into the real model',
+      'All interleavings of set_cell_value (by address and by defined name), evaluate and get_cell_value up to length 4 (quick) / 5 '
+      '(thorough) on five model shapes (chain, diamond with a repeated reference, sum over a range with a formula member, named '
+      'input, cross-sheet pair): every history is a distinct TLC state carrying the expected response and the expected stored value '
+      'of every cell after every step; the real model is driven along each history and compared after every step (and built from an '
+      '.xlsx for a sample). Evaluate in the spec is defined by the caching mechanism a constant selects, the property against the '
+      'big-step value on the current inputs; TLC proves the shipped mechanism satisfies it to depth 6 and the two caching variants do not.',
+      COMMON_NOTE + ' Left open: get of a never-evaluated formula cell, setting a formula cell, stored values of lazily skipped cells.',
+      '§7 C04')
+claim('C05',
+      'same XlWorkbook spec with two evaluators: TLC checks Deterministic / Idempotent / EvaluateFrame / Footprint and shows the '
+      'leaky-memo and global-memo variants violate them; every schedule of length 4 (thorough 5) replayed; model snapshot before/after '
+      'each evaluation; process footprint measured in a fresh subprocess',
+      'All permutations-with-repetition of Evaluate(evaluator in {1,2}, cell) of length 4/5 on the five shapes, plus all length-3 '
+      'interleavings with Set: responses compared with the spec (hence with each other), constants / formula texts / names / cell '
+      'set compared before and after every evaluation. Footprint: gc-object and tracemalloc growth between the 1st and the 2nd batch '
+      'of identical evaluations (3000 / 20000 per batch) in a fresh subprocess, with a single evaluator and with a fresh Evaluator '
+      'every 50 calls; the spec bounds what an evaluation may leave behind (Footprint), the harness bounds the measured growth.',
+      COMMON_NOTE + ' The footprint sub-clause uses quantities TLA+ has no notion of (gc objects, traced bytes), measured by the harness; '
+                    'slack 200 objects / 128 KiB per batch. Left open: volatile functions, threads.',
+      '§7 C05')
+
 ALL = ['C%02d' % i for i in range(1, 21)]
 
 
